@@ -229,7 +229,7 @@ def _gl(n):
     return _GL[n]
 
 
-def gauss_reference(f, a, b, breaks, n):
+def gauss_reference(f, a, b, breaks, n, absf=None):
     """(integral of f, integral of |f|) over the box [a,b]; f: tuple -> scalar or sequence; both are 1-D arrays."""
     d = len(a)
     xs, ws = [], []
@@ -250,10 +250,26 @@ def gauss_reference(f, a, b, breaks, n):
     wt = wt.ravel()
     vals = [np.atleast_1d(np.asarray(f(tuple(p)), dtype=float)).ravel() for p in pts.tolist()]
     V = np.asarray(vals, dtype=float)
-    return wt @ V, wt @ np.abs(V)
+    if absf is None:
+        return wt @ V, wt @ np.abs(V)
+    A = np.asarray([np.atleast_1d(np.asarray(absf(tuple(p)), dtype=float)).ravel() for p in pts.tolist()], dtype=float)
+    return wt @ V, wt @ A
 
 
-def reference_integral(f, a, b, breaks, budget=50000, n=None):
+def abs_eval(inst):
+    """x -> sum of the absolute contributions of the leaf functions of a composition (FunctionCompose parts may cancel, so
+    the integral of |f| would understate the rounding scale of the analytic sum); None for a leaf"""
+    name = type(inst).__name__
+    if name == "FunctionCompose":
+        parts = [(abs_eval(g) or (lambda x, g=g: np.abs(_as_vec(g.eval(x)))), abs(fac)) for g, fac in inst.functions]
+        return lambda x: sum(fac * g(x) for g, fac in parts)
+    if name == "FunctionShift":
+        g = abs_eval(inst.function)
+        return None if g is None else (lambda x: g(inst.shift(x)))
+    return None
+
+
+def reference_integral(f, a, b, breaks, budget=50000, n=None, absf=None):
     """Two Gauss rules (n-4 and n nodes per piece and dimension). Returns (value, scale, spread, n)."""
     d = len(a)
     pieces = 1
@@ -262,7 +278,7 @@ def reference_integral(f, a, b, breaks, budget=50000, n=None):
     if n is None:
         n = int((budget / pieces) ** (1.0 / d))
         n = max(7, min(64 if d == 1 else 40, n))
-    fine, scale = gauss_reference(f, a, b, breaks, n)
+    fine, scale = gauss_reference(f, a, b, breaks, n, absf)
     coarse, _ = gauss_reference(f, a, b, breaks, n - 4)
     return fine, scale, np.abs(fine - coarse), n
 
@@ -539,7 +555,8 @@ def run_integral(case, factory=build, sub=SUB_I, rel_tol=1e-9):
     else:
         # FunctionG*: a product of piecewise linear factors -> 5 (and 1) nodes per piece are exact
         ref, scale, spread, n = reference_integral(fresh.eval, a, b, breaks(spec, a, b),
-                                                   n=5 if cname in ("FunctionG", "FunctionGShifted") else None)
+                                                   n=5 if cname in ("FunctionG", "FunctionGShifted") else None,
+                                                   absf=abs_eval(fresh))
         if np.any(spread > 1e-11 * scale + 1e-300):
             out.cls("ref-unresolved", "ref-unresolved:" + label)
             out.info = dict(max_unresolved_spread=float(np.max(spread / np.maximum(scale, 1e-300))))
@@ -782,7 +799,9 @@ def _draw_box(draw, d, kind):
         if kind == "pos":
             lo = draw(st.sampled_from([0.0, 0.0, 0.25, 0.5, 1.0, 2.0]))
         else:
-            lo = draw(st.one_of(st.sampled_from([0.0, -1.0, -0.5, 0.25, 1.0, 2.0, -3.0]), st.floats(-2, 2, allow_nan=False)))
+            lo = draw(st.one_of(st.sampled_from([0.0, -1.0, -0.5, 0.25, 1.0, 2.0, -3.0]), st.floats(-2, 2, allow_nan=False).map(lambda v: round(v * 64) / 64.0)))
+        # box corners, widths, kink positions and shifts are dyadic: (a - t) + t and a + tau*h are exact, so a border drawn
+        # "on the box boundary" is exactly there (no sub-ulp slivers between the reference and the formula)
         a.append(float(lo) + 0.0)
         b.append(float(lo) + h)
     return a, b
@@ -791,7 +810,7 @@ def _draw_box(draw, d, kind):
 def _expvar_box(draw, d):
     """x^(1/d): d=1 any box; d=2 boxes touching 0 (graded reference) or start>=0.3*width; d=3: >=0.5*width; d=4: >=width"""
     a, b = [], []
-    ratio = {1: [0.0, 0.25, 1.0], 2: [0.0, 0.0, 0.3, 1.0, 2.0], 3: [0.5, 1.0, 2.0], 4: [1.0, 2.0]}[d]
+    ratio = {1: [0.0, 0.25, 1.0], 2: [0.0, 0.0, 0.3125, 1.0, 2.0], 3: [0.5, 1.0, 2.0], 4: [1.0, 2.0]}[d]
     for k in range(d):
         h = draw(st.sampled_from([0.25, 0.5, 1.0, 1.0, 2.0]))
         lo = h * draw(st.sampled_from(ratio))
